@@ -176,9 +176,27 @@ def run_harness(prop, seed, count, tier, scratch, extra_env=None, binary="harnes
     env = dict(GOENV, VERIF_SCRATCH=scratch)
     if extra_env:
         env.update(extra_env)
-    r = subprocess.run([os.path.join(BIN, binary), prop, str(seed), str(count), tier], capture_output=True, env=env)
+    # a completion that never returns (a deadlock in the code under test) must end the run, not hang it
+    limit = int(os.environ.get("VERIF_HARNESS_TIMEOUT", "600" if tier == "quick" else "14400"))
+    import signal, types
+    p = subprocess.Popen([os.path.join(BIN, binary), prop, str(seed), str(count), tier], stdout=subprocess.PIPE, stderr=subprocess.PIPE,
+                         env=env, start_new_session=True)
+    timed_out = False
+    try:
+        so, se = p.communicate(timeout=limit)
+    except subprocess.TimeoutExpired:
+        timed_out = True
+        try:
+            os.killpg(p.pid, signal.SIGKILL)
+        except OSError:
+            pass
+        so, se = p.communicate()
+    r = types.SimpleNamespace(returncode=p.returncode, stdout=so, stderr=se)
     cases, notes, errors = [], {}, []
-    if r.returncode != 0:
+    if timed_out:
+        errors.append("harness stream %s did not finish within %d s (killed): some invocation of the code under test never returned; "
+                      "%d bytes of cases were produced before" % (prop, limit, len(so)))
+    elif r.returncode != 0:
         errors.append("harness exit %d: %s" % (r.returncode, r.stderr.decode(errors="replace")[-2000:]))
     for line in r.stdout.decode("ascii", errors="replace").split("\n"):
         if not line:
